@@ -797,6 +797,23 @@ func (u *Unit) addAxioms(p *packages.Package, uses []string) {
 		}
 	}
 	addFrom(cf, p)
+	// every name in `uses` must denote something
+	for _, n := range uses {
+		known := strings.Contains(n, ":")
+		if _, ok := u.eng.lemmaPkg[n]; ok {
+			known = true
+		}
+		if cf != nil {
+			for _, a := range cf.Axioms {
+				if a.Group == n || a.Name == n {
+					known = true
+				}
+			}
+		}
+		if !known {
+			panic(specErr{fmt.Sprintf("uses %s: no such axiom group, axiom or lemma in package %s", n, p.PkgPath)})
+		}
+	}
 	// lemmas (proved separately) usable as axioms
 	for _, n := range uses {
 		pk, ok := u.eng.lemmaPkg[n]
@@ -813,11 +830,20 @@ func (u *Unit) addAxioms(p *packages.Package, uses []string) {
 	for _, n := range uses {
 		if i := strings.Index(n, ":"); i > 0 {
 			pkName, grp := n[:i], n[i+1:]
+			found := false
 			for path, ocf := range u.eng.cfiles {
-				if lastSeg(path) == pkName {
+				if lastSeg(path) == pkName && ocf != nil {
+					for _, a := range ocf.Axioms {
+						if a.Group == grp || a.Name == grp {
+							found = true
+						}
+					}
 					want[grp] = true
 					addFrom(ocf, u.eng.pkgs[path])
 				}
+			}
+			if !found {
+				panic(specErr{fmt.Sprintf("uses %s: no such axiom group", n)})
 			}
 		}
 	}
